@@ -28,14 +28,21 @@ EXPLANATION = ('Unbounded Coq theorems over the hand model: byte deletion in rev
                'for arbitrary sorted disjoint positive holes of a section, the bytes of a jump site no hole touches are found '
                'unchanged at new_off of its offset after punching, and the (replacement) relocation applied there at the shifted '
                'addresses yields a c.j/c.jal (resp. jal) to the symbol — under the explicit hypothesis that the new distance fits '
-               '(exactly what fails across memory images: known finding). NOT proved: the fold of do_relaxations over all '
-               'relocations of an arbitrary object (that holes_of is sorted/disjoint, relocation list bookkeeping; covered by '
-               'correspondence), and "computes the same results" by emulation (no RV32 interpreter was built).')
+               '(exactly what fails across memory images: known finding). Wave 5 (c13_holes_of_relaxation_ok, '
+               'c13_holes_are_site_halves): for ANY object on which the candidate loop of do_relaxations succeeds, every hole is '
+               '(site offset + 2, 2) of a relocation of that section, and when the relocation sites of a section are non-negative '
+               'and >= 4 bytes apart the sorted hole list handed to _apply_relaxation_holes is sorted, disjoint and positive '
+               '(the premises holes_ok / holes_pos of the shifting and per-site theorems), for every relocation order and every '
+               'subset shrunk. NOT proved: the remaining bookkeeping of the fold of do_relaxations over all relocations of an '
+               'arbitrary object (replace_relocs, that no hole touches another site; covered by correspondence), and '
+               '"computes the same results" by emulation (no RV32 interpreter was built).')
 TRUSTED = ['hand model coq/Model/Relax.v + Model/Reloc.v (cross-checked per run against Linker.do_relaxations on the same states)',
            'ISA reading in Spec/RelocSpec.v (jal, c.j, c.jal formats and link registers) and its Python twin',
            'tools/py2coq.py for wrap_negative (Gen.bitfun)']
-ASSUMPTIONS = ['holes of one section are sorted, pairwise disjoint and inside the section (true for holes produced by do_relaxations '
-               'from relocations at distinct instruction sites; checked on every generated case)',
+ASSUMPTIONS = ['holes of one section are sorted, pairwise disjoint and inside the section (sorted/disjoint/positive is PROVED for the '
+               'holes produced by do_relaxations from relocations at instruction sites >= 4 bytes apart: c13_holes_of_relaxation_ok; '
+               'the site-distance premise is evaluated on the real pre-relaxation state of every generated program and counted in '
+               'stages.relax_search.site_premise_holds / site_premise_fails)',
                'c13_targets_preserved assumes the post-relaxation distance fits the CJ immediate']
 MANIFEST = {
     'text': 'proof (with recorded refutations): unbounded Coq theorems over a hand model of Linker.do_relaxations / '
@@ -347,13 +354,28 @@ def model_case(linker):
     return term, OkV((exp[0], exp[1], exp[2])), kinds
 
 
+def site_premise_ok(linker):
+    """premise of c13_holes_of_relaxation_ok on the real pre-relaxation state: per section, relocation offsets are
+    non-negative and pairwise at least 4 bytes apart"""
+    per = {}
+    for (_t, _sid, sn, off, _add) in linker.pre['relocations']:
+        per.setdefault(sn, []).append(off)
+    for offs in per.values():
+        offs.sort()
+        if offs and offs[0] < 0:
+            return False
+        if any(b - a < 4 for a, b in zip(offs, offs[1:])):
+            return False
+    return True
+
+
 def regen(ctx):
     return c11.regen(ctx)
 
 
 def run(ctx):
     regen(ctx)
-    ok, _ = ctx.build(['Proofs/C13_final.vo', 'Proofs/C13_compose.vo'])
+    ok, _ = ctx.build(['Proofs/C13_final.vo', 'Proofs/C13_compose.vo', 'Proofs/C13_holes.vo'])
     if ok:
         ctx.check_props('Props/C13.v')
     stats = {}
@@ -369,6 +391,8 @@ def run(ctx):
     # sections in LATER images) are always part of the model/implementation correspondence
     for ci, linker in enumerate(canon_linkers):
         if linker is not None:
+            key = 'site_premise_holds' if site_premise_ok(linker) else 'site_premise_fails'
+            stats[key] = stats.get(key, 0) + 1
             term, exp, kinds = model_case(linker)
             cases.append((term, exp))
             meta.append('canonical-%d' % ci)
@@ -376,6 +400,9 @@ def run(ctx):
     for i in range(n):
         prog = gen_program(ctx)
         linker = check_program(ctx, prog, stats)
+        if linker is not None:
+            key = 'site_premise_holds' if site_premise_ok(linker) else 'site_premise_fails'
+            stats[key] = stats.get(key, 0) + 1
         if linker is not None and len(cases) - ncanon < (16 if ctx.quick() else 250):
             try:
                 term, exp, kinds = model_case(linker)
